@@ -266,7 +266,13 @@ impl Prop for C02 {
                 (Res::Err { .. }, false) => fw::pass(true, 1),
                 (Res::Ok { .. }, true) => fw::pass(true, 2),
                 (Res::Ok { .. }, false) => fw::fail("wide-power:accepted", format!("{q}: [{a}] and [{b}] are different powers, but the tool returned {}", got.short())),
-                (Res::Err { msg, .. }, true) => fw::fail("wide-power:refused", format!("{q}: the same powers on both sides, refused: {msg}")),
+                (Res::Err { msg, .. }, true) => {
+                    // (how large a unit power may be is the tool's choice)
+                    if let Ok(Res::Err { .. }) = obs::eval_one(env.db(), &format!("1 {a}")) {
+                        return Verdict::DontCare("a unit power the tool refuses on its own");
+                    }
+                    fw::fail("wide-power:refused", format!("{q}: the same powers on both sides, refused: {msg}"))
+                }
             };
         }
         if case.fam == "self-cancelled" {
